@@ -20,6 +20,14 @@ pub(crate) struct QueueInner<S, K: Clone> {
 impl<S, K: Clone + Eq + Hash> QueueInner<S, K> {
     pub fn insert(&mut self, k: K, s: S) {
         self.streams.insert(k.clone(), Box::pin(s));
+        // Events still queued for an earlier stream under this key would each
+        // give the key one more turn per rotation for as long as it stays busy.
+        if self.ready_queue.iter().any(|e| e.key == k) {
+            self.ready_queue = std::mem::take(&mut self.ready_queue)
+                .into_iter()
+                .filter(|e| e.key != k)
+                .collect();
+        }
         self.ready_queue.push(ReadyEvent {
             priority: self.counter.fetch_add(1, atomic::Ordering::Relaxed),
             key: k,
